@@ -396,16 +396,19 @@ class ScriptedComposer(ExtraResultsComposer):
 
     def __init__(self, mode, backend=None):
         self.mode, self.backend, self.ncalls = mode, backend, 0
+        self.answers = []     # what was answered at each call (None or the value of the extra column)
 
     def __call__(self, tuner):
         self.ncalls += 1
+        ans = self.ncalls
         if self.mode == "none_always":
-            return None
-        if self.mode == "none_odd" and self.ncalls % 2 == 1:
-            return None
-        if self.mode == "none_until_completion" and tuner.tuning_status.num_trials_completed == 0:
-            return None
-        return {"extra_calls": self.ncalls}
+            ans = None
+        elif self.mode == "none_odd" and self.ncalls % 2 == 1:
+            ans = None
+        elif self.mode == "none_until_completion" and tuner.tuning_status.num_trials_completed == 0:
+            ans = None
+        self.answers.append(ans)
+        return None if ans is None else {"extra_calls": ans}
 
     def keys(self):
         return ["extra_calls"]
